@@ -313,4 +313,79 @@ def balanced : Nat → List Op → Bool
   | d, .leave :: ops => balanced d ops
   | d, .fail _ :: ops => balanced d ops
 
+/-! ## structured renders
+
+The flat operation sequence above abstracts a structured evaluation in which what is written
+*later* may depend on what was captured *earlier* (a set block printed afterwards, a filter block,
+the string returned by a macro or by `super()`).  `Prog` makes that dependency explicit (`capture`
+hands the captured value to the rest of the program), `exec` evaluates it the way the VM does
+(errors of nested evaluations are wrapped on the way out), and `flatten` computes the operation
+sequence — without looking at the writer. -/
+
+inductive Prog where
+  | skip
+  | emit (c : Chunk)
+  | fail (id : Nat)
+  | seq (a b : Prog)
+  /-- `begin_capture(mode)`, body, `end_capture()`; the value (`none` for a discard) is available
+      to everything that follows -/
+  | capture (discard : Bool) (body : Prog) (k : Option Bytes → Prog)
+  /-- include / super: evaluate `body`, wrap its error -/
+  | nested (w : Wrap) (body : Prog)
+
+/-- big-step evaluation against an `Output` -/
+def exec {B : Type} [FmtWrite B] : Prog → Out B → Out B × Chk (Except Err Unit)
+  | .skip, o => (o, .ok (.ok ()))
+  | .emit c, o =>
+    let r := o.write c
+    (r.1, if r.2 then .ok (.ok ()) else .ok (.error Err.fromFmt))
+  | .fail id, o => (o, .ok (.error (.other id)))
+  | .seq a b, o =>
+    match exec a o with
+    | (o', .ok (.ok ())) => exec b o'
+    | r => r
+  | .capture d body k, o =>
+    match exec body (o.beginCapture d) with
+    | (o', .ok (.ok ())) =>
+      match o'.endCapture with
+      | .ok (o'', v) => exec (k v) o''
+      | .panic => (o', .panic)
+    | r => r
+  | .nested w body, o =>
+    match exec body o with
+    | (o', .ok (.error e)) => (o', .ok (.error (.wrapped w e)))
+    | r => r
+
+/-- what a program that runs to completion writes to the target that is current at its start -/
+def written : Prog → Bytes
+  | .skip => []
+  | .emit c => c.bytes
+  | .fail _ => []
+  | .seq a b => written a ++ written b
+  | .capture d body k => written (k (if d then none else some (written body)))
+  | .nested _ body => written body
+
+/-- the operation sequence of a structured program (independent of any writer) -/
+def flatten : Prog → List Op
+  | .skip => []
+  | .emit c => [.write c]
+  | .fail id => [.fail id]
+  | .seq a b => flatten a ++ flatten b
+  | .capture d body k =>
+    .beginCapture d :: (flatten body ++ .endCapture :: flatten (k (if d then none else some (written body))))
+  | .nested w body => .enter w :: (flatten body ++ [.leave])
+
+/-- the writer API on a structured program -/
+def renderProgTo (p : Prog) (script : List Beh) : Outcome :=
+  let r := exec p (⟨(⟨script, [], none⟩ : WriteWrapper), []⟩ : Out WriteWrapper)
+  ⟨r.1.w.calls,
+   match r.2 with
+   | .ok (.error e) => .ok (.error (r.1.w.takeErr e))
+   | x => x⟩
+
+/-- the plain render of a structured program -/
+def renderProgString (p : Prog) : StrOutcome :=
+  let r := exec p (⟨([] : Bytes), []⟩ : Out Bytes)
+  ⟨r.1.w, r.2⟩
+
 end MJ.Output
